@@ -68,8 +68,6 @@ inductive Ev where
   | submit                 -- a caller enters `send_request` (fresh request id) and enqueues its task
   | submitFull             -- a caller enters `send_request`, the submit channel is full
   | enqueue (req : Nat)    -- a parked caller's task enters the channel
-  | grant (req : Nat)      -- a parked caller is handed channel capacity freed by the writer (tokio's semaphore
-                           -- assigns released permits to its waiters); its push comes when it is polled next
   | submitRace             -- a caller enters `send_request` and obtains channel capacity; the push comes later
   | push (req : Nat)       -- … the push
   | writerTake             -- writer: pop a task, allocate a stream id, write the frame
@@ -151,11 +149,6 @@ def step (c : Conn) : Ev → Conn
     if c.broken then c else
     if c.sending.contains r then
       { c with sending := c.sending.filter (· != r), queue := c.queue ++ [r] }
-    else c
-  | .grant r =>
-    if c.broken then c else
-    if c.sending.contains r then
-      { c with sending := c.sending.filter (· != r), permits := c.permits ++ [r] }
     else c
   | .submitRace =>
     let r := c.nextReq
